@@ -72,7 +72,7 @@ theorem good_step (c : Chan) (op : Op) (c' : Chan) (o : Obs) (hg : Good c)
     (hs : step c op = some (c', o)) : Good c' := by
   obtain ⟨g1, g2⟩ := hg
   cases op with
-  | send i x =>
+  | send p i x =>
     simp only [step] at hs
     split at hs
     · split at hs
@@ -121,7 +121,7 @@ theorem good_step (c : Chan) (op : Op) (c' : Chan) (o : Obs) (hg : Good c)
       · intro hra; exact ⟨rfl, (g1 hra).2⟩
       · intro w hw; simp [LocalWaker.wake, LocalWaker.take] at hw
     · simp at hs
-  | poll w =>
+  | poll p w =>
     simp only [step] at hs
     split at hs
     · rename_i hra
@@ -164,6 +164,12 @@ theorem good_step (c : Chan) (op : Op) (c' : Chan) (o : Obs) (hg : Good c)
     split at hs
     · simp only [Option.some.injEq, Prod.mk.injEq] at hs; obtain ⟨hs, _⟩ := hs; subst hs
       simp [Good]
+    · simp at hs
+  | quiet k =>
+    simp only [step] at hs
+    split at hs
+    · simp only [Option.some.injEq, Prod.mk.injEq] at hs; obtain ⟨hs, _⟩ := hs; subst hs
+      exact ⟨g1, g2⟩
     · simp at hs
 
 theorem good_reach {c : Chan} (h : Reach c) : Good c := by
@@ -212,7 +218,10 @@ theorem dead_obs (c : Chan) (op : Op) (c1 : Chan) (o : Obs) (hs : step c op = so
   cases op <;> simp only [step, hd, Bool.false_eq_true, if_false] at hs
   all_goals (try (split at hs))
   all_goals (try (split at hs))
-  all_goals (simp at hs; done)
+  all_goals (try (simp at hs; done))
+  rename_i k _
+  simp only [Option.some.injEq, Prod.mk.injEq] at hs
+  cases k <;> simp [Quiet.obs] at hs
 
 /-- a dropped receiver stays dropped and receives nothing -/
 theorem received_nil_of_dead : ∀ (ops : List Op) (c c' : Chan) (os : List Obs),
@@ -247,7 +256,7 @@ theorem fifo_gen : ∀ (ops : List Op) (c c' : Chan) (os : List Obs), run c ops 
     subst he
     obtain ⟨rest, h1, h2⟩ := ih c1 c' os' hr'
     cases op with
-    | send i x =>
+    | send p i x =>
       simp only [step] at hs
       split at hs
       · split at hs
@@ -277,7 +286,7 @@ theorem fifo_gen : ∀ (ops : List Op) (c c' : Chan) (os : List Obs), run c ops 
       · simp only [Option.some.injEq, Prod.mk.injEq] at hs; obtain ⟨hc, ho⟩ := hs; subst hc; subst ho
         exact ⟨rest, by simpa only [List.zip_cons_cons, sentOk, received] using h1, h2⟩
       · simp at hs
-    | poll w =>
+    | poll p w =>
       simp only [step] at hs
       split at hs
       · split at hs
@@ -312,43 +321,72 @@ theorem fifo_gen : ∀ (ops : List Op) (c c' : Chan) (os : List Obs), run c ops 
         · simp [sentOk, received, hdead]
         · intro h; simp [hfl] at h
       · simp at hs
+    | quiet k =>
+      simp only [step] at hs
+      split at hs
+      · simp only [Option.some.injEq, Prod.mk.injEq] at hs; obtain ⟨hc, ho⟩ := hs; subst hc; subst ho
+        refine ⟨rest, ?_, h2⟩
+        rw [List.zip_cons_cons, received_skip _ _ _ (by intro x; cases k <;> simp [Quiet.obs])]
+        cases k <;> simpa only [sentOk, Quiet.obs] using h1
+      · simp at hs
 
 /-! ## a closed or sender-less channel drains -/
 
-theorem poll_closed (c : Chan) (w : WakerId) (hra : c.recvAlive = true)
+theorem poll_closed (c : Chan) (p : RecvPath) (w : WakerId) (hra : c.recvAlive = true)
     (h : c.hasReceiver = false ∨ c.senders = []) :
-    step c (.poll w) = some ({ c with buffer := c.buffer.tail }, .polled (.ready c.buffer.head?)) := by
+    step c (.poll p w) = some ({ c with buffer := c.buffer.tail }, .polled (.ready c.buffer.head?)) := by
   simp only [step, hra, if_true]
   have : (c.strong == 1 || !c.hasReceiver) = true := by
     rcases h with h | h <;> simp [Chan.strong, h, hra]
   simp [this]
 
-theorem run_poll_closed (c : Chan) (w : WakerId) (ops : List Op) (hra : c.recvAlive = true)
+theorem run_poll_closed (c : Chan) (p : RecvPath) (w : WakerId) (ops : List Op) (hra : c.recvAlive = true)
     (h : c.hasReceiver = false ∨ c.senders = []) :
-    run c (.poll w :: ops) =
+    run c (.poll p w :: ops) =
       (run { c with buffer := c.buffer.tail } ops).map
-        (fun p => (p.1, Obs.polled (.ready c.buffer.head?) :: p.2)) := by
-  simp only [run, poll_closed c w hra h]
+        (fun q => (q.1, Obs.polled (.ready c.buffer.head?) :: q.2)) := by
+  simp only [run, poll_closed c p w hra h]
   cases run { c with buffer := c.buffer.tail } ops with
   | none => rfl
-  | some p => rfl
+  | some q => rfl
 
-theorem drain_gen (w : WakerId) : ∀ (buf : List Nat) (c : Chan), c.buffer = buf → c.recvAlive = true →
+/-- the receive operations of a list of (entry point, waker) pairs -/
+def polls (ps : List (RecvPath × WakerId)) : List Op := ps.map (fun q => Op.poll q.1 q.2)
+
+/-- a closed or sender-less channel with `buf` buffered, asked `buf.length + 1` times through **any
+mixture** of `poll_next` and `recv()` with any wakers, hands out `buf` in order and then `None` -/
+theorem drain_gen : ∀ (buf : List Nat) (ps : List (RecvPath × WakerId)) (c : Chan), c.buffer = buf →
+    ps.length = buf.length + 1 → c.recvAlive = true →
     (c.hasReceiver = false ∨ c.senders = []) →
-    (run c (List.replicate (buf.length + 1) (.poll w))).map (·.2) =
+    (run c (polls ps)).map (·.2) =
       some (buf.map (fun x => Obs.polled (.ready (some x))) ++ [Obs.polled (.ready none)]) := by
   intro buf
   induction buf with
   | nil =>
-    intro c hb hra h
-    simp [List.replicate, run_poll_closed c w _ hra h, run, hb]
+    intro ps c hb hl hra h
+    match ps, hl with
+    | [q], _ => simp [polls, run_poll_closed c q.1 q.2 _ hra h, run, hb]
   | cons x t ih =>
-    intro c hb hra h
-    have := ih { c with buffer := c.buffer.tail } (by simp [hb]) hra h
-    rw [List.length_cons, List.replicate_succ, run_poll_closed c w _ hra h, Option.map_map]
-    rw [Option.map_eq_some_iff] at this ⊢
-    obtain ⟨p, hp, hp2⟩ := this
-    exact ⟨p, hp, by simp [hp2, hb]⟩
+    intro ps c hb hl hra h
+    match ps, hl with
+    | q :: ps', hl' =>
+      have hl2 : ps'.length = t.length + 1 := by simpa using hl'
+      have := ih ps' { c with buffer := c.buffer.tail } (by simp [hb]) hl2 hra h
+      simp only [polls, List.map_cons] at this ⊢
+      rw [run_poll_closed c q.1 q.2 _ hra h, Option.map_map]
+      rw [Option.map_eq_some_iff] at this ⊢
+      obtain ⟨r, hr, hr2⟩ := this
+      exact ⟨r, hr, by simp [hr2, hb]⟩
+
+/-! ## quiet operations -/
+
+theorem quiet_step (c c' : Chan) (k : Quiet) (o : Obs) (hs : step c (.quiet k) = some (c', o)) :
+    c' = c ∧ o = k.obs c ∧ o.woke = none := by
+  simp only [step] at hs
+  split at hs
+  · simp only [Option.some.injEq, Prod.mk.injEq] at hs; obtain ⟨h1, h2⟩ := hs; subst h1; subst h2
+    exact ⟨rfl, rfl, by cases k <;> rfl⟩
+  · simp at hs
 
 end Chan
 end ActixNet
